@@ -270,6 +270,29 @@ pub fn with_std_prepare(mut other: impl FnMut(&Req) -> Vec<Act> + Send + 'static
     })
 }
 
+/// Builds the session (a few attempts) and waits for full pools. `Err(line)`: the case could not reach its
+/// precondition - an environment problem (overloaded machine), never a property violation: the caller prints the line
+/// (`e2e-skip ...`) and judges nothing.
+pub async fn connect(
+    cluster: &MockCluster,
+    customise: impl Fn(scylla::client::session_builder::SessionBuilder) -> scylla::client::session_builder::SessionBuilder,
+) -> Result<scylla::client::session::Session, String> {
+    let mut last = String::new();
+    for attempt in 0..3 {
+        match customise(cluster.session_builder()).build().await {
+            Ok(session) => {
+                if cluster.wait_pools_full(&session, std::time::Duration::from_secs(10)).await {
+                    return Ok(session);
+                }
+                last = "pools-not-full".to_owned();
+            }
+            Err(_) => last = "session-build-failed".to_owned(),
+        }
+        tokio::time::sleep(std::time::Duration::from_millis(100 << attempt)).await;
+    }
+    Err(format!("e2e-skip {}", last))
+}
+
 pub fn is_request(r: &Req) -> bool {
     matches!(r.parsed, Parsed::Query { .. } | Parsed::Execute { .. } | Parsed::Batch { .. })
 }
